@@ -946,7 +946,17 @@ def rule_filter(ctx):
         res = []
         for e, v in uses:
             side = _none_side(e, tp)
-            if side is None:
+            truth = _truth_side(e, tp) if side is None else None
+            if side is None and truth is not None:
+                # the path decided the truth value of the threshold, not `is None`: falsy covers None and an explicit 0 alike
+                if truth:
+                    okk = isinstance(v, Num) and (v.lin == Lin.term(("param", tp)) or _is_cast_of_param(wm, v, tp))
+                    res.append((okk, "the caller's (non-zero) threshold is used" if okk else "an explicit threshold is not passed on unchanged", fact_strs(e)))
+                else:
+                    okk = isinstance(v, Num) and (v.lin == Lin.term(("param", tp)) or v.lin == Lin.const(0) or _is_cast_of_param(wm, v, tp))
+                    res.append((okk, "a zero threshold stays zero" if okk else
+                                "the default is chosen by the truth value of `threshold`: an explicit threshold of 0 is replaced by floor(phi * n_added())", fact_strs(e)))
+            elif side is None:
                 res.append((None, "the path does not decide `threshold is None`"))
             elif side:
                 okk = _is_default_threshold(wm, v)
@@ -979,6 +989,19 @@ def _none_side(ev, pname):
             if c[0] == "atom" and isinstance(c[1], tuple) and c[1][0] == "cmp" and c[1][1] in ("isnot", "ne") \
                     and ("'%s'" % pname) in str(c[1][2]) and "None" in str(c[1][3]):
                 return not pol
+    return None
+
+
+def _truth_side(ev, pname):
+    """True / False: the path of `ev` decided the truth value of the bare parameter (`if threshold:`); None otherwise."""
+    pl = Lin.term(("param", pname))
+    for (_, _, cc) in ev.path:
+        for c in conjuncts(cc):
+            pol = True
+            while c[0] == "not":
+                c, pol = c[1], not pol
+            if c[0] in ("ne", "eq") and isinstance(c[1], Lin) and (c[1] == pl or c[1] == -pl):
+                return pol if c[0] == "ne" else not pol
     return None
 
 
